@@ -85,12 +85,29 @@ decreasing_by
   have : parent.length ≠ 0 := by simpa using h
   omega
 
+/-- the second loop of `started_building_file`: a directory this call created (or one that was virtually removed
+    by a failure) may have been reserved by another thread first; it is registered as created all the same -/
+def registerUp (b : BD) (createdDirs : List Path) (parent : Path) (locked : List Path) : BD × List Path :=
+  let (b, locked) :=
+    if (createdDirs.contains parent || b.errorCreated.contains parent) && !b.created.contains parent && hasCount b parent then
+      ({ b with created := add b.created parent, errorCreated := discard b.errorCreated parent,
+                removedFiles := discard b.removedFiles parent }, locked ++ [parent])
+    else (b, locked)
+  if h : parent = [] then (b, locked) else registerUp b createdDirs parent.dropLast locked
+termination_by parent.length
+decreasing_by
+  simp only [List.length_dropLast]
+  have : parent.length ≠ 0 := by simpa using h
+  omega
+
 /-- `started_building_file(filename, created_dirs)` -/
 def started (b : BD) (p : Path) (createdDirs : List Path) : BD × List Path :=
   let b := { b with removedFiles := discard b.removedFiles p }
   match p with
   | [] => (b, [])
-  | _ :: _ => startedLoop b createdDirs p.dropLast []
+  | _ :: _ =>
+    let (b, locked) := startedLoop b createdDirs p.dropLast []
+    if createdDirs.isEmpty && b.errorCreated.isEmpty then (b, locked) else registerUp b createdDirs p.dropLast locked
 
 /-- the loop of `error_building_file` -/
 def errorLoop (b : BD) (parent : Path) : Option BD :=
